@@ -58,7 +58,8 @@ class Sim:
         self.stats = {"global": 0, "ref": 0, "evict": 0, "merge": 0, "cross": 0, "flush": 0, "msgs": 0}
 
     # ---- steps
-    def init(self, lat, lon):
+    def init(self, lat, lon, t_start=1000.0):
+        self.now = t_start
         self.rx = (lat, lon)
         self.dec = (Decode(latlon=(lat, lon)), Decode(latlon=(lat, lon)))
 
@@ -358,11 +359,11 @@ class Machine(RuleBasedStateMachine):
             keep = [list(x) for x in self.steps[:40]] if sum(1 for c in Machine.COLLECT if c[3] is not None) < 2 and self.sim.stats.get("ref") else None
             Machine.COLLECT.append((hash(repr(self.steps)), dict(self.sim.stats), len(self.sim.acs), keep))
 
-    @initialize(lat=RXLAT, lon=RXLON, first=st.lists(st.tuples(st.integers(0, 5), st.booleans(), cg.latitudes(), cg.longitudes(), gen.ufloat(0, 28), gen.ufloat(0, 360),
+    @initialize(lat=RXLAT, lon=RXLON, t_start=st.sampled_from([1000.0, 1000.0, 0.0, -0.9, -500.75, 1.7e9 + 0.5, -61.3]), first=st.lists(st.tuples(st.integers(0, 5), st.booleans(), cg.latitudes(), cg.longitudes(), gen.ufloat(0, 28), gen.ufloat(0, 360),
                                                                gen.ufloat(0, 360), st.one_of(gen.ufloat(0, 600), st.just(600.0)), st.sampled_from(["air", "air", "sfc"])),
                                                      min_size=1, max_size=3))
-    def start(self, lat, lon, first):
-        self.do("init", lat, lon)
+    def start(self, lat, lon, first, t_start):
+        self.do("init", lat, lon, t_start)
         for a in first:
             self.do("add_aircraft", *a)
 
@@ -414,6 +415,19 @@ class Machine(RuleBasedStateMachine):
             if flush_between and dt < 59:
                 self.do("flush")
         self.do("position", idx, parity, 3, bits, 17)
+        self.do("flush")
+
+    @precondition(lambda self: self.sim.acs)
+    @rule(idx=IDX, seed=SEED, base=st.one_of(gen.ufloat(59.0, 61.0), st.sampled_from([59.95, 60.0, 60.5, 60.9])), d1=gen.ufloat(0.05, 0.99), d2=gen.ufloat(0.05, 0.99))
+    def threshold_probe(self, idx, seed, base, d1, d2):
+        """one message, then process_raw calls less than a second apart while the silence crosses 59-61 s"""
+        self.do("ident", idx, seed)
+        self.do("flush")
+        self.do("advance", base)
+        self.do("flush")
+        self.do("advance", d1)
+        self.do("flush")
+        self.do("advance", d2)
         self.do("flush")
 
     @precondition(lambda self: self.sim.acs)
